@@ -63,6 +63,20 @@ def percentile_vcs():
         vcs.append(reach_vc(wp, name, hdr))
         fns.append({'c_name': name, 'cxx': 'nano::detail::percentile<' + ', '.join(astload.template_args(fn))[:70] + '>', 'file': hdr,
                     'line': fn.get('loc', {}).get('line'), 'sha': astload.file_hash(hdr)})
+    # the instance the median wrappers use (specs/C20/stats.h NV_MEDIAN_OF): the rule proved above, at p = 50, is the middle order
+    # statistic for odd n and the mean of the two middle ones for even n (a lemma about the rule, proved once)
+    lemma = """(declare-fun F (Int) Real)
+(declare-const n Int)
+(assert (>= n 1))
+(define-fun pos () Real (/ (* 50.0 (to_real (- n 1))) 100.0))
+(define-fun lo () Int (to_int pos))
+(define-fun rule () Real (ite (= (to_real lo) pos) (F lo) (/ (+ (F lo) (F (+ lo 1))) 2.0)))
+(define-fun med () Real (ite (= (mod n 2) 1) (F (div (- n 1) 2)) (/ (+ (F (- (div n 2) 1)) (F (div n 2))) 2.0)))
+(assert (not (= rule med)))
+(check-sat)
+"""
+    vcs.append(VC('detail::percentile/median_instance: the percentile rule at p = 50 is F((n-1)/2) for odd n and (F(n/2-1) + F(n/2))/2 for even n', lemma,
+                  about='lemma linking the proved percentile rule to the median reference', source={'file': hdr}))
     return vcs, fns
 
 
@@ -86,19 +100,20 @@ def build(tier):
     bin_i64 = Fn('histogram_bin_i64', TU, 'bin', flt='nano::histogram_t', select=targs('long'), **common)
     targets = [Target('bin_f64', [bin_f64], 'specs/C20/bin.h'), Target('bin_i64', [bin_i64], 'specs/C20/bin.h')]
     ptypes = lambda *want: (lambda d: astload.param_types(d) == list(want))
-    stdmap = [(r'^advance\|', '({0} += {1})'), (r'^nth_element\|', 'nv_nth_element_f64({0}, {1}, {2})'),
-              (r'^percentile_sorted\|', 'nv_percentile({0}, {1}, {2})'), (r'^percentile\|', 'nv_percentile({0}, {1}, {2})')]
+    import ext
+    stdmap = [(r'^nth_element\|', 'nv_nth_element_f64({0}, {1}, {2})'), (r'^max_element\|', 'nv_max_element_f64({0}, {1})'),
+              (r'^percentile_sorted\|', 'nv_percentile_sorted({0}, {1}, {2})'), (r'^percentile\|', 'nv_percentile_unsorted({0}, {1}, {2})')] + ext.ITER_CALLS
     fps = Fn('from_position_sorted', TU, 'percentile_sorted', flt='nano::', select=ptypes('const double *', 'const double *', 'const double'),
              lambda_index=0, extra_params=['const double* begin'], calls=stdmap)
     fpu = Fn('from_position_unsorted', TU, 'percentile', flt='nano::', select=ptypes('double *', 'double *', 'const double'),
              lambda_index=0, extra_params=['double* begin', 'double* end'], calls=stdmap)
-    med_s = Fn('median_sorted', TU, 'median_sorted', flt='nano::', select=ptypes('const double *', 'const double *'), calls=stdmap)
-    med = Fn('median', TU, 'median', flt='nano::', select=ptypes('double *', 'double *'), calls=stdmap)
+    med_s = Fn('median_sorted', TU, 'median_sorted', flt='nano::', select=ptypes('const double *', 'const double *'), calls=stdmap, hooks=[ext.iter_default_hook])
+    med = Fn('median', TU, 'median', flt='nano::', select=ptypes('double *', 'double *'), calls=stdmap, hooks=[ext.iter_default_hook])
     hcalls = [(r'^operator\(\)\|.*tensor_vector_storage_t, (double|long), 1', '{0}.p[{1}]'),
-              (r'^upper_bound\|(double|long) \*\((double|long) \*, (double|long) \*, const double &, \(lambda', 'nv_upper_bound_cmp({0}, {1}, {2})'),
-              (r'^lower_bound\|(double|long) \*\((double|long) \*, (double|long) \*, const (double|long) &\)', 'nv_lower_bound_elem({0}, {1}, {2})'),
+              (r'^upper_bound\|(double|long|signed char|short|int) \*\((double|long|signed char|short|int) \*, (double|long|signed char|short|int) \*, const double &, \(lambda', 'nv_upper_bound_cmp({0}, {1}, {2})'),
+              (r'^lower_bound\|(double|long|signed char|short|int) \*\((double|long|signed char|short|int) \*, (double|long|signed char|short|int) \*, const (double|long|signed char|short|int) &\)', 'nv_lower_bound_elem({0}, {1}, {2})'),
               (r'^distance\|', '({1} - {0})'), (r'^quiet_NaN\|', 'nv_quiet_nan()'),
-              (r'^median_sorted\|', 'nv_median_sorted_range({0}, {1})'), (r'^mean\|nano::scalar_t \((double|long) \*, (double|long) \*', 'nv_mean_range({0}, {1}, {2})')]
+              (r'^median_sorted\|', 'nv_median_sorted_range({0}, {1})'), (r'^mean\|nano::scalar_t \((double|long|signed char|short|int) \*, (double|long|signed char|short|int) \*', 'nv_mean_range({0}, {1}, {2})')]
     hmembers = [(r'^size\|.*tensor_base_t<double, 1', 'nv_t1d_size'), (r'^resize\|.*tensor_vector_storage_t(, |<)double, 1', 'nv_t1d_resize'),
                 (r'^resize\|.*tensor_vector_storage_t(, |<)long, 1', 'nv_t1i_resize'), (r'^(zero|full)\|', 'nv_fill_erased()'),
                 (r'^update_bin\|', 'update_bin_cov'), (r'^mean\|.*histogram_t.*#3', 'nv_mean_range({0}, {1}, {2})')]
@@ -115,6 +130,13 @@ def build(tier):
     targets += [Target('histogram_update_i64', [upd_i, updop_i()], 'specs/C20/update.h', replace=['update_op'], defines=['NV_ELEM=int64_t']),
                 Target('update_op_i64', [updop_i()], 'specs/C20/update.h', defines=['NV_ELEM=int64_t']),
                 Target('update_bin_i64', [updbin_i], 'specs/C20/update.h', defines=['NV_ELEM=int64_t'])]
+    # narrow integer sample types (int32_t; int16_t and int8_t in the thorough tier: byte-sized elements cost CBMC 3-5x more): the same contracts
+    for tag, cxx, cty in [('i32', 'int', 'int32_t')] + ([('i16', 'short', 'int16_t'), ('i8', 'signed char', 'int8_t')] if tier == 'thorough' else []):
+        mk_upd = lambda cxx=cxx: Fn('histogram_update', TU, 'update', flt='nano::histogram_t', select=targs(cxx + ' *'), **hk)
+        mk_op = lambda cxx=cxx: Fn('update_op', TU, 'update', flt='nano::histogram_t', select=targs(cxx + ' *'), lambda_index=0, optional=True, **hk_nolam)
+        mk_bin = lambda cxx=cxx: Fn('update_bin', TU, 'update_bin', flt='nano::histogram_t', select=targs(cxx + ' *'), **hk)
+        targets += [Target(f'histogram_update_{tag}', (lambda a=mk_upd, b=mk_op: [a(), b()]), 'specs/C20/update.h', enforce='histogram_update', replace=['update_op'], defines=[f'NV_ELEM={cty}']),
+                    Target(f'update_bin_{tag}', (lambda a=mk_bin: [a()]), 'specs/C20/update.h', enforce='update_bin', defines=[f'NV_ELEM={cty}'])]
     targets += [Target('histogram_update', [upd, updop()], 'specs/C20/update.h', replace=['update_op']),
                 Target('update_op', [updop()], 'specs/C20/update.h'), Target('update_bin', [updbin], 'specs/C20/update.h')]
     targets += [Target('from_position_sorted', [fps], 'specs/C20/stats.h'), Target('from_position_unsorted', [fpu], 'specs/C20/stats.h'),
@@ -128,13 +150,40 @@ def build(tier):
     tpos = Target('percentile_position_ieee', [pos], 'specs/C20/position.h', timeout=200)
     tpos.bound = 'n <= 64 values, integer percentages 0..100'
     tpos.note = 'IEEE evaluation of the percentile position: lpos/rpos are the exact floor/ceiling of P(n-1)/100'
+    import ext
+    targets += ext.mean_targets(tier)
+    update_fns = lambda cxx: [Fn('histogram_update', TU, 'update', flt='nano::histogram_t', select=targs(cxx + ' *'), **hk),
+                              Fn('update_op', TU, 'update', flt='nano::histogram_t', select=targs(cxx + ' *'), lambda_index=0, optional=True, **hk_nolam)]
+    targets += ext.ctor_targets(tier, update_fns)
+    targets += ext.factory_targets(tier, update_fns)
     pv, pf = percentile_vcs()
     return {
         'targets': targets, 'vcs': pv, 'functions': pf, 'bounded': [tpos],
-        'decided': ['histogram_t::update: bins = thresholds+1 slots, the bins are consecutive ranges of the sorted values that tile them exactly once, a value lies in bin b only if t_{b-1} <= v < t_b, count = range length; update_bin: count/mean/median over exactly its range, NaN for an empty bin', 'the position->value lambdas of percentile_sorted (value stored at the position) and percentile (k-th smallest via nth_element); median / median_sorted are the 50th percentile', 'detail::percentile (all instantiations): result is the sorted value at position p(n-1)/100 (midpoint when fractional), positions stay in [0, n-1] (over the reals, n <= 2^46)', 'bin(v) equals the counting rule #{j: t_j <= v} for every finite real v and every integer |v| <= 2^53, for every sorted threshold list of symbolic length'],
-        'not_decided': ['float value of the bin means', 'make_from_exponents (log/pow)'],
-        'assumptions': ['std::nth_element leaves at position nth the element a full sort would put there (assumed contract)', 'IEEE double treated as real for the percentile position arithmetic', 'std::upper_bound returns the partition point of a partitioned range (assumed contract, stated at a ghost index)',
-                        'thresholds are sorted and not NaN (established by the constructor: std::sort)'],
+        'decided': ['histogram_t::update (double, int64, int32 samples; int16 / int8 in the thorough tier): bins = thresholds+1 slots in buffers of their own, the bins are consecutive ranges of the sorted values that tile them exactly once, a value lies in bin b only if t_{b-1} <= v < t_b and -- the thresholds being sorted -- only if b = #{j : t_j <= v} (the counting rule of bin(v), at a ghost threshold), count = range length; the precondition of its std::upper_bound calls (range partitioned w.r.t. the comparator) follows from the sorted values',
+                    'update_bin: count / mean / median over exactly its range, NaN for an empty bin; mean is called with count == distance(begin, end) > 0',
+                    'histogram_t::mean for int16 / double samples (int8 / int32 / int64 in the thorough tier): the accumulator of std::accumulate has type scalar_t (the type of init), starts at 0, every step of the fold adds the element CONVERTED to scalar_t (the extracted lambda, with CBMC\'s overflow / conversion obligations), the result is that sum divided by count; update_bin stores exactly this value',
+                    'constructor histogram_t(begin, end, thresholds) (int32 samples; int8 / int16 / int64 / double thorough): establishes the representation invariant (values sorted, thresholds sorted and not NaN, at ghost indices, from std::sort\'s contract), owns the thresholds it was given, and calls update() INSIDE its precondition (update is replaced by its contract: every requires clause is an obligation at the call site); its postcondition is the partition / counting-rule clause of the property for thresholds given directly',
+                    'make_from_thresholds (int64 samples; int16 / int32 / double thorough): constructs exactly one histogram over the WHOLE value list with the thresholds it was given, inside the constructor\'s precondition (constructor replaced by its contract)',
+                    'make_from_percentiles / make_from_ratios (thorough tier; int64 and double samples): the values and the parameter list are sorted first, percentile_sorted is called INSIDE its precondition (whole non-empty list, sorted values, percentage in [0, 100]), threshold i handed to the constructor is percentile_sorted(values, p_i) resp. min + r_i (max - min) with min / max the smallest / largest value (at a ghost position; operand order of the commutative + and * free), one threshold per parameter, and the constructor is called once, inside its precondition, on the WHOLE value list (`*--end; ++end` restores end)',
+                    'the position->value lambdas of percentile_sorted (value stored at the position) and percentile (k-th smallest via nth_element)',
+                    'median / median_sorted against the sorted-array reference: the middle order statistic for odd n, the mean of the two middle ORDER STATISTICS for even n; std::nth_element is given exactly its standard contract (nth is the order statistic, left part <=, right part >=, nothing about the order inside the parts), so `*std::prev(middle)` after one nth_element is refuted while `*std::max_element(begin, middle)` and the library\'s own two-call version are proved; std::prev / next / advance / distance on the pointer iterators',
+                    'detail::percentile (all instantiations, now also those of the integer histograms): result is the sorted value at position p(n-1)/100 (midpoint when fractional), positions stay in [0, n-1] (over the reals, n <= 2^46); lemma: at p = 50 that rule is the median reference',
+                    'bin(v) equals the counting rule #{j: t_j <= v} for every finite real v and every integer |v| <= 2^53, for every sorted threshold list of symbolic length'],
+        'not_decided': ['float value of the bin means (rounding of the scalar_t fold; + and / are uninterpreted: the SHAPE sum/count is decided)',
+                        'make_from_exponents (log / pow), make_equidistant_* (src/core/histogram.cpp), the (begin, end, bins) overloads of the factories that call them',
+                        'computed thresholds are not NaN (percentile_sorted / min + r (max - min) of finite values: float arithmetic is uninterpreted); the constructor\'s std::sort contract is assumed for them as for given thresholds',
+                        'the percentile / percentile_sorted WRAPPERS (capture initialisers of the lambdas handed to detail::percentile) are composed by hand in the stubs of median / median_sorted (NV_MEDIAN_OF), not extracted',
+                        'that the sorted values are a permutation of the input (std::sort\'s other clause; not used by any obligation)',
+                        'x / 2 rewritten as 0.5 * x in the fractional percentile (exact in IEEE, different uninterpreted terms: would be a false alarm)'],
+        'assumptions': ['std::nth_element: the range is permuted, *nth is the element a full sort would put there (for the whole list, and for the left / right part of an earlier partition of the whole list), elements before are <=, elements after are >= (assumed contract, at a ghost position); std::max_element returns a maximal element (on the left part of a partition at k: the order statistic k-1)',
+                        'std::sort (operator<): given its precondition (no NaN among the elements: the property quantifies over lists of integers / reals) the range is ascending afterwards (assumed contract, at ghost positions; nothing else about the havocked range)',
+                        'std::accumulate(first, last, init[, op]): T acc = init with T the type of init; acc = op(acc, *it) / acc + *it for every element in order (assumed contract; one generic step of the fold is checked on the extracted lambda); IEEE + is commutative',
+                        'std::prev / std::next without a distance move by 1 ([iterator.operations]); pointer iterators',
+                        'IEEE double treated as real for the percentile position arithmetic',
+                        'std::upper_bound / lower_bound return the partition point of a partitioned range (assumed contract, stated at a ghost index; the partition precondition itself is now an obligation in update)',
+                        'bin(v): thresholds are sorted and not NaN (established by the constructor: proved, see ctor_*) and counts.size == thresholds.size + 1 (established by update: proved)',
+                        'make_from_percentiles / make_from_ratios: every percentile lies in (0, 100) / every ratio in (0, 1) (the factories\' documented preconditions: their asserts), assumed for the cell at the ghost position after std::sort',
+                        'malloc succeeds in the tensor resize / construction stubs'],
         'trusted': [],
     }
 
@@ -157,6 +206,32 @@ def replay(rp):
             seen.add((P, n))
             rc, so, se = replaylib.run_driver(exe, ['pct', P, n])
             out['runs'].append({'obligation': fo['id'], 'percentage': P, 'n': n, 'exit': rc, 'output': so.strip()})
+            if rc == 1:
+                out['reproduced'] = True
+        return out
+    if rp['target'].startswith('mean_'):
+        # per-bin sums that do not fit the sample type (the verifier's counterexample is one overflowing step of the fold)
+        kind = {'mean_i8': 'b', 'mean_i16': 's', 'mean_i32': 'w', 'mean_i64': 'i'}.get(rp['target'].replace('mean_op_', 'mean_'), 'd')
+        big = {'b': 100, 's': 30000, 'w': 2000000000, 'i': 9000000000000000000, 'd': 1}[kind]
+        for th, vals in [([0.5], [big, big, big, -big, -big, -big]), ([0.5], [big, big - 1, 1, 2, -3])]:
+            rc, so, se = replaylib.run_driver(exe, ['hist', kind, len(th)] + [repr(float(t)) for t in th] + [repr(x) for x in vals])
+            out['runs'].append({'values': kind, 'thresholds': th, 'list': vals, 'exit': rc, 'output': so.strip()[-600:]})
+            if rc == 1:
+                out['reproduced'] = True
+        return out
+    if rp['target'].startswith(('ctor_', 'make_')):
+        # thresholds handed over in non-ascending order (the representation invariant is the constructor's to establish)
+        for kind, th, vals in [('d', [2.5, 0.5, -1.5], [-3, -2, -1.5, 0, 0.5, 1, 2, 2.5, 3]), ('i', [3.0, 1.0, 2.0, 1.0], [0, 1, 1, 2, 3, 4]),
+                               ('d', [-1.5, 0.5, 2.5], [3, -2, 2.5, 0, 0.5, -3, 2, -1.5, 1])]:
+            rc, so, se = replaylib.run_driver(exe, ['hist', kind, len(th)] + [repr(float(t)) for t in th] + [repr(x) for x in vals])
+            out['runs'].append({'values': kind, 'thresholds': th, 'list': vals, 'exit': rc, 'output': so.strip()[-600:]})
+            if rc == 1:
+                out['reproduced'] = True
+        return out
+    if rp['target'].startswith('median') or rp['target'].startswith('percentile_unsorted'):
+        for vals in [[1, 2, 3, 5, 4, 6], [4, 1, 3, 2], [7, -1, 3, 3, 0, 9, 2, 5], [2.5, -0.5, 1.5, 0.25]]:
+            rc, so, se = replaylib.run_driver(exe, ['med'] + [repr(float(x)) for x in vals])
+            out['runs'].append({'list': vals, 'exit': rc, 'output': so.strip()[-600:]})
             if rc == 1:
                 out['reproduced'] = True
         return out
